@@ -180,6 +180,29 @@ def run(tier='quick', repo=None):
                             'the destination keeps its previous value, and a lookup after the copy returns something the source never held' % name} if ex else {}))
     if ncopy < 9:
         raise facts.AnalysisBroken('only %d uref_attr_copy_T functions found' % ncopy)
+    # ---- R-cmp-width -------------------------------------------------------------------
+    rep.rule('R-cmp-width', 'the generated uref_G_cmp_A helpers ("0 if both attributes are absent or identical"): no return of an int-valued function yields the '
+             'difference of two operands wider than int (uint64_t, int64_t) or of floating type, narrowed on the way out - 2^32 - 0 and 0.5 - 0.0 both narrow to 0, '
+             'i.e. "identical"')
+    ncmp = 0
+    for name, fn in sorted(H.funcs.items()):
+        if not re.search(r'_cmp_\w+$', name) or not fn.blocks or not (fn.macro or '').startswith('UREF_ATTR_') or fn.ret != 'int':
+            continue
+        ncmp += 1
+        bad = None
+        for bid, st, x in fn.nodes():
+            if x.get('k') != 'return' or not isinstance(x.get('e'), dict):
+                continue
+            e = x['e']
+            # the returned expression: a subtraction computed in a type wider than int / in a floating type
+            for y in walk(fn.resolve(e)):
+                if isinstance(y, dict) and y.get('k') == 'bin' and y.get('op') == '-' and re.search(r'(uint64_t|int64_t|unsigned long|long|double|float)', str(y.get('t') or '')):
+                    bad = (x.get('l'), y.get('t'))
+        rep.add('R-cmp-width', name, VIOLATED if bad else HOLDS, fn.loc if not bad else '%s:%s' % (fn.file, bad[0]),
+                **({'what': '%s returns a difference computed in %s narrowed to int: values that differ by a multiple of 2^32 (or by less than 1) compare as identical' % (
+                    name, bad[1])} if bad else {}))
+    if ncmp < 50:
+        raise facts.AnalysisBroken('only %d generated cmp helpers found' % ncmp)
     # ---- R-dup-deep --------------------------------------------------------------------
     fn = u.funcs.get('udict_inline_dup')
     if fn is None:
